@@ -121,12 +121,19 @@ func (r *Run) keep(o *Obligation) bool {
 	if len(o.Tags) == 0 {
 		return true
 	}
+	// a clause tagged [X,*] is assumed by every check (support) but verified only by the check of X
+	star, other := false, false
 	for _, t := range o.Tags {
-		if r.Active[t] || t == "*" {
+		if r.Active[t] {
 			return true
 		}
+		if t == "*" {
+			star = true
+		} else {
+			other = true
+		}
 	}
-	return false
+	return star && !other
 }
 
 type funcReport struct {
